@@ -13,6 +13,11 @@ claimed = {
    'Every vector of environment answers (per-request injection delay, per-message wire stall, memory response delay and response order, flush cycle, restart delay) with <= 3 (quick) / <= 4 (thorough) non-default answers is executed on a fresh instance; a port-level monitor checks order, exactly-once, payload, forward fidelity, capacity and flush discipline in every execution.',
    'Trusted: akita SerialEngine/Port; the monitor; bounds = 3-5 requests, buffer 1-3, width 1-2, flush at cycles 1-12. Requester is silent during a flush.',
    'DESIGN.md §4 C15', 'E1+E4'),
+ 'C16': (MC, 'stateless deviation-bounded exhaustive exploration of the real component under an explorer-driven environment',
+   'Real addresstranslator.Comp under the real akita SerialEngine; the environment plays requester, translation service (non-identity page table, two PIDs), two interleaved memory modules and the controller. '
+   'Every vector of environment answers (injection delays, stalls of the Top/Bottom/Translation wires, translation and memory reply delay and order, flush cycle, restart delay) with <= 3 (quick) / <= 4 (thorough) non-default answers is executed; the monitor checks physical address = frame(PID,page)+offset, size/data/mask fidelity, destination module, exactly-once forward and response, original ID, payload, and flush discipline.',
+   'Trusted: akita SerialEngine/Port; the monitor. Bounds: 3-5 accesses over 2 pages x 2 PIDs, width 1-2, flush at cycles 1-14; accesses do not cross pages; requester silent during a flush.',
+   'DESIGN.md §4 C16', 'E1+E4'),
 }
 checks = []
 for p in props:
